@@ -259,3 +259,24 @@ func VP_C17_Matrix3() {
 	}
 	vp.Reach("end")
 }
+
+// VP_C03_CircleAxisBound: the axis extent of a unit disc with a symbolic unit
+// normal (any tilt, including almost-parallel to a coordinate axis) is at
+// least the true extent sqrt(1 - n_axis^2), on the side given by sign, for
+// each of the three axes (this is what Cylinder, Cone and Torus bounds are
+// built from).
+func VP_C03_CircleAxisBound() {
+	n := vpPoint("normal")
+	vp.AssumeEq(n.X*n.X+n.Y*n.Y+n.Z*n.Z, 1)
+	axis := vp.Param("axis")
+	sign := 1.0
+	if vp.Choice("negative", 2) == 1 {
+		sign = -1
+	}
+	w := sign * circleAxisBound(axis, n, sign)
+	na := n.Array()[axis]
+	vp.Assert(w >= 0, "extent is on the side given by sign")
+	vp.Assert(w*w >= 1-na*na, "extent covers the tilted disc: at least sqrt(1 - n_axis^2)")
+	vp.Assert(w <= 1+1e-7, "extent is at most the radius (plus the numerical pad)")
+	vp.Reach("end")
+}
